@@ -21,7 +21,6 @@ structure Cfg.Good (c : Cfg) : Prop where
   pid0 : c.pid0Refused = true
   empty : c.emptyAsksAll = some 1024
   sorted : c.getSortedSet = true
-  dedup : c.setDedup = true
 
 /-! ### ioprio packing -/
 
@@ -203,6 +202,15 @@ theorem mem_pySet (l : List Int) (x : Int) : x ∈ pySet l ↔ x ∈ l := List.m
 
 theorem allLong_pySet {l : List Int} (h : AllLong l) : AllLong (pySet l) :=
   fun v hv => h v ((mem_pySet l v).1 hv)
+
+theorem mem_dedup (c : Cfg) (l : List Int) (x : Int) : x ∈ dedup c l ↔ x ∈ l := by
+  unfold dedup
+  split
+  · exact mem_pySet l x
+  · exact Iff.rfl
+
+theorem allLong_dedup (c : Cfg) {l : List Int} (h : AllLong l) : AllLong (dedup c l) :=
+  fun v hv => h v ((mem_dedup c l v).1 hv)
 
 /-! ### the diagnosis loop -/
 
